@@ -1025,6 +1025,9 @@ def guarded(f, res, case, *a):
             with G.vctx(case.get("verbose")):
                 f(res, case, *a)
     except Exception as e:      # noqa: BLE001
+        if G.raised_in_harness(e):      # item 21: an exception of the harness's own code (a wrapper, an unpack) is a broken tie, never a violation
+            G.wrapper_trouble(res, "C14", "harness-exception:" + case["kind"], case, "%s: %s" % (type(e).__name__, e))
+            return
         res.fail("a view operation on a valid screen with valid masks raises", case, "%s: %s" % (type(e).__name__, e), "a view",
                  signature="C14:raises:" + case["kind"])
 
@@ -1088,16 +1091,21 @@ def entry_point_case(res, case):
             out = tmpdir + "/meta.json"
             with G.recording(stage, "Screen") as calls:
                 G.run_main(stage, ["--screen", src, "--output", out], verbose)
-            for _, loaded in calls:      # the plate views the stage iterates over partition the loaded screen by plate id
+            for c in calls:      # the plate views the stage iterates over partition the loaded screen by plate id
+                loaded = c.out
                 cover = [0] * len(raw["snames"])
                 for p_ in loaded.plates:
                     for i, b in enumerate(p_.selection_vector):
                         cover[i] += bool(b)
                 if any(c != 1 for c in cover):
                     res.fail("plates of the screen the stage loaded do not partition its experiments", case, cover, "every row in exactly one plate")
-            meta = G.read_json(out)
             want = {"n_plates": len(plates), "n_observed_plates": sum(status.values()), "n_unobserved_plates": len(plates) - sum(status.values())}
-            got = {k: meta.get(k) for k in want}
+            try:
+                meta = G.read_json(out)
+                got = {k: meta[k] for k in want}
+            except Exception as e:      # noqa: BLE001 -- item 20: the key names of the metadata file are knowledge about the current layout
+                G.wrapper_trouble(res, "C14", "layout:metadata-json", case, "%s: %s" % (type(e).__name__, e))
+                return
             if got != want:
                 res.fail("extract_screen_metadata: the written plate counts are not the numbers of plate views / of plate views that are observed and unobserved",
                          case, got, want, signature="C14:entry-point:extract_screen_metadata")
@@ -1105,8 +1113,15 @@ def entry_point_case(res, case):
             out = tmpdir + "/revealed.h5"
             with G.recording(stage, "reveal_plates") as calls:
                 G.run_main(stage, ["--screen", src, "--output", out, "--plate-id"] + list(case["plate_ids"]), verbose)
-            got_ids = [sorted(int(x) for x in (c[0][1] if len(c[0]) > 1 else c[1].get("plate_ids"))) for c in calls]
-            if got_ids != [sorted(case["plate_ids"])]:
+            got_ids = None
+            try:
+                if calls:
+                    got_ids = [sorted(int(x) for x in c.arg("plate_ids")) for c in calls]
+                else:
+                    res.count("wrapper.not-called.reveal_plates")
+            except (LookupError, TypeError, ValueError) as e:      # item 21: a call form the harness cannot bind is a broken tie
+                G.wrapper_trouble(res, "C14", "reveal_plates", case, e)
+            if got_ids is not None and sorted(case["plate_ids"]) not in got_ids:
                 res.fail("reveal_plate: the plate ids handed to reveal_plates are not those of the command line (plate id 0 included)", case,
                          got_ids, sorted(case["plate_ids"]), signature="C14:entry-point:reveal_plate:ids")
             t = Screen.load_h5(out)
@@ -1126,7 +1141,11 @@ def entry_point_case(res, case):
                     res.count("entry-point.prepare.raised." + type(e).__name__)
                     return
             for c in calls:
-                filtered = c[1]["screen"] if "screen" in c[1] else c[0][0]
+                try:
+                    filtered = c.arg("screen")
+                except LookupError as e:        # item 21
+                    G.wrapper_trouble(res, "C14", "mask_screen", case, e)
+                    continue
                 # filter -> subset -> to_screen: the materialised rows are rows of the loaded screen, in parent order
                 have, it = row_tuples(filtered), iter(row_tuples(inp))
                 if not all(any(r == x for x in it) for r in have):
